@@ -979,7 +979,12 @@ func rulePercentageDecor(w *World, r *Report, pfx string) {
 						if par, isP := v.(*ssa.Parameter); isP && par.Parent() != fn {
 							// a helper's parameter: the single caller's argument
 							h := par.Parent()
-							sites := w.callers[h]
+							var sites []ssa.CallInstruction
+							for _, st := range w.callers[h] {
+								if st.Parent().Synthetic == "" { // not the pointer-receiver wrapper of a value method
+									sites = append(sites, st)
+								}
+							}
 							if len(sites) == 1 {
 								for k, q := range h.Params {
 									if q == par && k < len(sites[0].Common().Args) {
@@ -998,7 +1003,11 @@ func rulePercentageDecor(w *World, r *Report, pfx string) {
 			}
 		}
 		hasSign := false
-		for _, b := range fn.Blocks {
+		var signBlocks []*ssa.BasicBlock
+		for _, g := range sortedFns(w.unit(fn)) {
+			signBlocks = append(signBlocks, g.Blocks...)
+		}
+		for _, b := range signBlocks {
 			for _, in := range b.Instrs {
 				for _, op := range in.Operands(nil) {
 					if k, isK := (*op).(*ssa.Const); isK && k.Value != nil {
